@@ -19,7 +19,12 @@ import time
 
 ROOT = os.path.dirname(os.path.dirname(os.path.abspath(__file__)))
 REPO = os.environ.get("VERIF_REPO", "/repo")
-BUILD = os.path.join(ROOT, "build", "rel")
+# VERIF_BUILD_ROOT / VERIF_REPO / VERIF_EVIDENCE_DIR let a mutation experiment run the same checks
+# against a scratch worktree with its own build tree and evidence directory.
+BUILDROOT = os.environ.get("VERIF_BUILD_ROOT", os.path.join(ROOT, "build"))
+EVIDENCE = os.environ.get("VERIF_EVIDENCE_DIR", os.path.join(ROOT, "evidence"))
+REPLAYS = os.environ.get("VERIF_REPLAY_DIR", os.path.join(ROOT, "replays"))
+BUILD = os.path.join(BUILDROOT, "rel")
 BIN = os.path.join(BUILD, "bin")
 SPEC = os.path.join(ROOT, "spec")
 NCPU = os.cpu_count() or 4
@@ -37,9 +42,9 @@ def log(*a):
 # --------------------------------------------------------------------------- build
 def build(targets, variant="rel", extra_cmake=()):
     """(Re)build harness executables + celeritas libs from /repo's current working tree."""
-    bdir = os.path.join(ROOT, "build", variant)
+    bdir = os.path.join(BUILDROOT, variant)
     os.makedirs(bdir, exist_ok=True)
-    lock = open(os.path.join(ROOT, "build", ".lock"), "w")
+    lock = open(os.path.join(BUILDROOT, ".lock"), "w")
     fcntl.flock(lock, fcntl.LOCK_EX)
     try:
         t0 = time.time()
@@ -70,7 +75,7 @@ def run_harness(exe, args, timeout=600, env=None, stdin=None, variant="rel", che
     e.setdefault("CELER_DISABLE_PARALLEL", "1")
     if env:
         e.update(env)
-    path = os.path.join(ROOT, "build", variant, "bin", exe)
+    path = os.path.join(BUILDROOT, variant, "bin", exe)
     try:
         r = subprocess.run([path] + [str(a) for a in args], stdout=subprocess.PIPE,
                            stderr=subprocess.PIPE, text=True, timeout=timeout, env=e, input=stdin)
@@ -137,7 +142,7 @@ def tlc(module, cfg=None, workers=None, env=None, timeout=900, simulate=None, de
     expect_ok=True raises Broken for any non-zero exit that is not a property violation.
     """
     _tlc_seq[0] += 1
-    meta = os.path.join(ROOT, "build", "tlc", "%d_%d_%s" % (os.getpid(), _tlc_seq[0], module))
+    meta = os.path.join(BUILDROOT, "tlc", "%d_%d_%s" % (os.getpid(), _tlc_seq[0], module))
     os.makedirs(meta, exist_ok=True)
     cmd = ["java", "-XX:+UseParallelGC", "-Xmx" + heap, "-Xss64m"]
     if dfs:
@@ -237,10 +242,10 @@ class Ctx:
         self.coverage = {}
         self.assumptions = []
         self.findings = known_findings(pid)
-        self.workdir = os.path.join(ROOT, "build", "work", pid)
+        self.workdir = os.path.join(BUILDROOT, "work", pid)
         shutil.rmtree(self.workdir, ignore_errors=True)
         os.makedirs(self.workdir, exist_ok=True)
-        os.makedirs(os.path.join(ROOT, "replays"), exist_ok=True)
+        os.makedirs(REPLAYS, exist_ok=True)
 
     quick = property(lambda s: s.tier == "quick")
 
@@ -262,7 +267,7 @@ class Ctx:
             self.known_hits.append((f["id"], what))
             return False
         stamp = "%s_%d_%d" % (self.pid, int(time.time()), len(self.violations))
-        rdir = os.path.join(ROOT, "replays", stamp)
+        rdir = os.path.join(REPLAYS, stamp)
         os.makedirs(rdir, exist_ok=True)
         with open(os.path.join(rdir, "what.txt"), "w") as fh:
             fh.write(what + "\n" + json.dumps(tags or {}) + "\n")
@@ -289,8 +294,8 @@ class Ctx:
         ev = {"property_id": self.pid, "tier": self.tier, "seed": self.seed, "level": self.level,
               "coverage": cov, "assumptions": self.assumptions, "wall_s": round(wall, 2),
               "violations": len(self.violations)}
-        os.makedirs(os.path.join(ROOT, "evidence"), exist_ok=True)
-        with open(os.path.join(ROOT, "evidence", self.pid + ".json"), "w") as fh:
+        os.makedirs(EVIDENCE, exist_ok=True)
+        with open(os.path.join(EVIDENCE, self.pid + ".json"), "w") as fh:
             json.dump(ev, fh, indent=1, sort_keys=True)
             fh.write("\n")
         for what, rdir in self.violations:
